@@ -155,7 +155,8 @@ def value(draw, ai, sep):
         else:
             n = k
             dp = draw(st.integers(0, k - 1))
-        digs = draw(st.text(alphabet='0123456789', min_size=n, max_size=n))
+        digs = draw(st.one_of(st.text(alphabet='0123456789', min_size=n, max_size=n), st.text(alphabet='0123456789', min_size=n, max_size=n),
+                              st.just('0' * n), st.just('0' * (n - 1) + '1')))  # zero / smallest value with many decimals
         val = decimal.Decimal((digs[:n - dp] or '0') + ('.' + digs[n - dp:] if dp else ''))
         enc = str(dp) + pre + digs
         return enc, ((pre, val) if pre else val)
